@@ -91,6 +91,14 @@ def handle (op : String) (args : List String) : String :=
             | .ok f => toString (HConv f) | .error _ => "-") ++
           " again " ++ findWire (t.findCall proj (memIsFile fs) (components arg) source)
     | _, _, _, _, _, _ => "bad-args"
+  | "hist", [kind, folder, map, proj, fs, calls] =>
+    match mode? kind folder map, path? proj, list? path? fs, list? entry? calls with
+    | some md, some proj, some fs, some calls =>
+      -- a call is `<require>=<source>` (hex both); here the require is parsed as a path too
+      match calls.mapM (fun (c : Name × Path) => some (components c.1, c.2)) with
+      | some cs => "|".intercalate ((md.findHistory proj (memIsFile fs) cs).map findWire)
+      | none => "bad-args"
+    | _, _, _, _ => "bad-args"
   | "HA", [p] =>
     match path? p with
     | some p => toString (HA p)
